@@ -3,6 +3,7 @@
 package sched
 
 import (
+	"context"
 	"encoding/json"
 	"errors"
 	"fmt"
@@ -769,139 +770,160 @@ func c19fanout(c *core.Ctx) {
 		}
 		for _, op := range []string{"transform", "images"} {
 			for _, es := range esets {
-				n, errs, op, ordered := n, es.errs, op, es.ordered
-				id := fmt.Sprintf("fanout/%s/n%d/errs%v", op, n, errs)
-				if ordered != 0 {
-					id += fmt.Sprintf("/first%d", errs[ordered-1])
-				}
-				if c.Expired() {
-					return
-				}
-				c.Do(id, func() core.Outcome {
-					bound := 2
-					if n >= 4 && c.Quick() {
-						bound = 1
+				for ek := 0; ek < 2; ek++ {
+					// ek 1: the failing function returns an error that wraps context.Canceled (what it returns is not the call's business)
+					if ek == 1 && (len(es.errs) != 1 || n > 3 || op != "transform") {
+						continue
 					}
-					if n <= 3 && !c.Quick() {
-						bound = 3
+					n, errs, op, ordered, ek := n, es.errs, op, es.ordered, ek
+					id := fmt.Sprintf("fanout/%s/n%d/errs%v", op, n, errs)
+					if ordered != 0 {
+						id += fmt.Sprintf("/first%d", errs[ordered-1])
 					}
-					var np *types.Project
-					var rerr error
-					var returned bool
-					var live int
-					var base *types.Project
-					var before string
-					injected := map[string]bool{}
-					for _, e := range errs {
-						injected["inj-"+svcNames[e]] = true
+					if ek == 1 {
+						id += "/wraps-canceled"
 					}
-					outcomes := map[string]struct{}{}
-					setup := func() (func(), func(*vsched.Sched) string) {
-						base = &types.Project{Name: "p", Services: types.Services{}}
-						for i := 0; i < n; i++ {
-							base.Services[svcNames[i]] = types.ServiceConfig{Name: svcNames[i], Image: "img-" + svcNames[i]}
+					if c.Expired() {
+						return
+					}
+					c.Do(id, func() core.Outcome {
+						bound := 2
+						if n >= 4 && c.Quick() {
+							bound = 1
 						}
-						before = jsonOf(base)
-						np, rerr, returned, live = nil, nil, false, 0
-						firstName, secondName := "", ""
-						if ordered != 0 {
-							firstName, secondName = svcNames[errs[ordered-1]], svcNames[errs[2-ordered]]
+						if n <= 3 && !c.Quick() {
+							bound = 3
 						}
-						tidFirst, orderVoid := -1, false
-						var ocell uint64
-						fn := func(name string, s types.ServiceConfig) (types.ServiceConfig, error) {
-							vsched.Yield()
-							if name == firstName {
-								tidFirst = vsched.ThreadID()
+						var np *types.Project
+						var rerr error
+						var returned bool
+						var live int
+						var base *types.Project
+						var before string
+						injected := map[string]bool{}
+						for _, e := range errs {
+							injected["inj-"+svcNames[e]] = true
+						}
+						outcomes := map[string]struct{}{}
+						setup := func() (func(), func(*vsched.Sched) string) {
+							base = &types.Project{Name: "p", Services: types.Services{}}
+							for i := 0; i < n; i++ {
+								base.Services[svcNames[i]] = types.ServiceConfig{Name: svcNames[i], Image: "img-" + svcNames[i]}
 							}
-							if name == secondName && secondName != "" {
-								if !vsched.WaitUntil(&ocell, func() bool { return tidFirst >= 0 && vsched.ThreadFinished(tidFirst) }) {
-									orderVoid = true // the first one cannot finish before this one returns: no order to assert
+							before = jsonOf(base)
+							np, rerr, returned, live = nil, nil, false, 0
+							firstName, secondName := "", ""
+							if ordered != 0 {
+								firstName, secondName = svcNames[errs[ordered-1]], svcNames[errs[2-ordered]]
+							}
+							tidFirst, orderVoid := -1, false
+							var ocell uint64
+							fn := func(name string, s types.ServiceConfig) (types.ServiceConfig, error) {
+								vsched.Yield()
+								if name == firstName {
+									tidFirst = vsched.ThreadID()
 								}
-							}
-							if injected["inj-"+name] {
-								return s, errors.New("inj-" + name)
-							}
-							s.Image = "resolved-" + name
-							return s, nil
-						}
-						body := func() {
-							np, rerr = base.WithServicesTransform(fn)
-							returned = true
-							live = vsched.Live()
-						}
-						return body, func(sc *vsched.Sched) string {
-							if sc.Fail != nil {
-								return ""
-							}
-							if !returned {
-								return "no-return|the call never returned"
-							}
-							if live != 0 {
-								return fmt.Sprintf("goroutine-leak|%d goroutines still alive at return", live)
-							}
-							if jsonOf(base) != before {
-								return "receiver-modified|the receiver project was modified"
-							}
-							o := fmt.Sprint(rerr)
-							if len(errs) == 0 {
-								if rerr != nil {
-									return "spurious-error|" + rerr.Error()
-								}
-								if np == nil || len(np.Services) != n {
-									return fmt.Sprintf("partial-result|result has %d services, expected %d", len(np.Services), n)
-								}
-								for i := 0; i < n; i++ {
-									if np.Services[svcNames[i]].Image != "resolved-"+svcNames[i] {
-										return "wrong-result|service " + svcNames[i] + " does not carry the function's result"
+								if name == secondName && secondName != "" {
+									if !vsched.WaitUntil(&ocell, func() bool { return tidFirst >= 0 && vsched.ThreadFinished(tidFirst) }) {
+										orderVoid = true // the first one cannot finish before this one returns: no order to assert
 									}
 								}
-							} else {
-								if rerr == nil {
-									return "error-swallowed|a per-service function failed but the call returned nil"
+								if injected["inj-"+name] {
+									if ek == 1 {
+										return s, ctxLikeErr{"inj-" + name, context.Canceled}
+									}
+									return s, errors.New("inj-" + name)
 								}
-								if !injected[rerr.Error()] {
-									return "wrong-error|returned " + rerr.Error()
-								}
-								if firstName != "" && !orderVoid && rerr.Error() != "inj-"+firstName {
-									return fmt.Sprintf("not-the-first-error|service %s failed, and its thread ended, before service %s failed; the call returned %q", firstName, secondName, rerr.Error())
-								}
+								s.Image = "resolved-" + name
+								return s, nil
 							}
-							outcomes[o] = struct{}{}
-							return ""
-						}
-					}
-					_ = op
-					res := ExploreScenario(bound, true, c.Dead, c.Heartbeat, setup)
-					c.Count("states", res.States)
-					c.Count("transitions", res.Transitions)
-					c.Count("traces_validated_against_impl", res.Executions)
-					sample := map[string]any{"scenario": id, "executions": res.Executions, "states": res.States, "bound_completed": res.Bound, "distinct_outcomes": len(outcomes)}
-					if res.FailMsg != "" {
-						key, msg := "schedule-failure", res.FailMsg
-						switch {
-						case strings.HasPrefix(res.FailMsg, "deadlock"):
-							key = "deadlock"
-							if len(errs) > 0 {
-								key += ":after-error"
+							body := func() {
+								np, rerr = base.WithServicesTransform(fn)
+								returned = true
+								live = vsched.Live()
 							}
-						case strings.HasPrefix(res.FailMsg, "NONDETERMINISTIC"):
-							return core.Outcome{Class: "nondeterministic", Trivial: true, Sample: sample}
-						case strings.Contains(res.FailMsg, "|"):
-							i := strings.Index(res.FailMsg, "|")
-							key, msg = res.FailMsg[:i], res.FailMsg[i+1:]
+							return body, func(sc *vsched.Sched) string {
+								if sc.Fail != nil {
+									return ""
+								}
+								if !returned {
+									return "no-return|the call never returned"
+								}
+								if live != 0 {
+									return fmt.Sprintf("goroutine-leak|%d goroutines still alive at return", live)
+								}
+								if jsonOf(base) != before {
+									return "receiver-modified|the receiver project was modified"
+								}
+								o := fmt.Sprint(rerr)
+								if len(errs) == 0 {
+									if rerr != nil {
+										return "spurious-error|" + rerr.Error()
+									}
+									if np == nil || len(np.Services) != n {
+										return fmt.Sprintf("partial-result|result has %d services, expected %d", len(np.Services), n)
+									}
+									for i := 0; i < n; i++ {
+										if np.Services[svcNames[i]].Image != "resolved-"+svcNames[i] {
+											return "wrong-result|service " + svcNames[i] + " does not carry the function's result"
+										}
+									}
+								} else {
+									if rerr == nil {
+										return "error-swallowed|a per-service function failed but the call returned nil"
+									}
+									if !injected[rerr.Error()] {
+										return "wrong-error|returned " + rerr.Error()
+									}
+									if firstName != "" && !orderVoid && rerr.Error() != "inj-"+firstName {
+										return fmt.Sprintf("not-the-first-error|service %s failed, and its thread ended, before service %s failed; the call returned %q", firstName, secondName, rerr.Error())
+									}
+								}
+								outcomes[o] = struct{}{}
+								return ""
+							}
 						}
-						return core.Outcome{Class: id, Sample: sample, Viol: &core.Violation{Key: "fanout:" + key,
-							Msg:    fmt.Sprintf("%s, schedule %v (preemption bound %d): %s", id, res.FailPrefix, res.Bound, msg),
-							Detail: map[string]any{"schedule": res.FailPrefix, "trace": traceString(res.FailTrace)}}}
-					}
-					if reps := NewRaceReports(); len(reps) > 0 {
-						return core.Outcome{Class: id, Sample: sample, NoRecheck: true, Viol: &core.Violation{Key: "data-race@" + RaceSite(reps[0]),
-							Msg: id + ": ThreadSanitizer reports a data race inside an explored schedule", Detail: reps[0]}}
-					}
-					return core.Outcome{Class: id, Sample: sample}
-				})
+						_ = op
+						res := ExploreScenario(bound, true, c.Dead, c.Heartbeat, setup)
+						c.Count("states", res.States)
+						c.Count("transitions", res.Transitions)
+						c.Count("traces_validated_against_impl", res.Executions)
+						sample := map[string]any{"scenario": id, "executions": res.Executions, "states": res.States, "bound_completed": res.Bound, "distinct_outcomes": len(outcomes)}
+						if res.FailMsg != "" {
+							key, msg := "schedule-failure", res.FailMsg
+							switch {
+							case strings.HasPrefix(res.FailMsg, "deadlock"):
+								key = "deadlock"
+								if len(errs) > 0 {
+									key += ":after-error"
+								}
+							case strings.HasPrefix(res.FailMsg, "NONDETERMINISTIC"):
+								return core.Outcome{Class: "nondeterministic", Trivial: true, Sample: sample}
+							case strings.Contains(res.FailMsg, "|"):
+								i := strings.Index(res.FailMsg, "|")
+								key, msg = res.FailMsg[:i], res.FailMsg[i+1:]
+							}
+							return core.Outcome{Class: id, Sample: sample, Viol: &core.Violation{Key: "fanout:" + key,
+								Msg:    fmt.Sprintf("%s, schedule %v (preemption bound %d): %s", id, res.FailPrefix, res.Bound, msg),
+								Detail: map[string]any{"schedule": res.FailPrefix, "trace": traceString(res.FailTrace)}}}
+						}
+						if reps := NewRaceReports(); len(reps) > 0 {
+							return core.Outcome{Class: id, Sample: sample, NoRecheck: true, Viol: &core.Violation{Key: "data-race@" + RaceSite(reps[0]),
+								Msg: id + ": ThreadSanitizer reports a data race inside an explored schedule", Detail: reps[0]}}
+						}
+						return core.Outcome{Class: id, Sample: sample}
+					})
+				}
 			}
 		}
 	}
 }
+
+// ctxLikeErr is an error of the caller's own that wraps one of the context errors.
+type ctxLikeErr struct {
+	msg    string
+	target error
+}
+
+func (e ctxLikeErr) Error() string { return e.msg }
+func (e ctxLikeErr) Unwrap() error { return e.target }
